@@ -1350,7 +1350,10 @@ fn run<P: HP>(input: impl BufRead, out: &mut impl Write) {
         }
         let r = catch_unwind(AssertUnwindSafe(|| step(&mut st, t)));
         match r {
-            Ok(s) => writeln!(out, "{}", s).unwrap(),
+            Ok(s) => {
+                writeln!(out, "{}", s).unwrap();
+                out.flush().unwrap();
+            }
             Err(e) => {
                 let msg = e
                     .downcast_ref::<String>()
